@@ -410,6 +410,10 @@ func (its *PushPullHandler) evaluatePushPullCase() (pushPullCase, errors.OrdaErr
 		if its.datatypeDoc == nil {
 			return caseMatchNothing, nil
 		}
+		if its.datatypeDoc.CollectionNum != its.collectionDoc.Num {
+			// a DUID is looked up without its collection: never serve a datatype of another collection
+			return caseError, errors.PushPullAbortionOfClient.New(its.ctx.L(), "the datatype belongs to another collection")
+		}
 		return caseUsedDUID, nil
 	}
 	if its.datatypeDoc.Type == its.gotPushPullPack.Type.String() {
